@@ -80,6 +80,8 @@ func rulesC03(c *Ctx) {
 	R.Rule("R6", "check-then-act pairs on the mint-quote state are protected by compare-and-swap or lock", 3)
 	R.Rule("R7", "signature save is the last fallible step and is atomic", 5)
 	R.Rule("R8", "mint signs only behind overflow-checked OUT <= stored quote amount (at most the quoted amount)", 3)
+	R.Rule("R9", "the quote state survives storage: String() and StringToState of the mint-quote state are inverse tables (the state is persisted as text)", 1)
+	c.ruleEnumTables("R9", "cashu/nuts/nut04")
 	c.vocabProblems("R1")
 	st := c.mintStateConsts("R1")
 	if st == nil {
@@ -261,11 +263,43 @@ func (c *Ctx) c03MessageAgreement() {
 				return o.Of(d.Args[0]).String(), c.P.InstrPos(ci)
 			}
 		}
+		// the hash may be computed in a helper: take the message from the value handed to Sign / Verify
+		for _, ci := range Calls(f) {
+			d := c.P.Describe(ci)
+			var hv ssa.Value
+			switch {
+			case d.Name == "schnorr.Sign" && len(d.Args) >= 2:
+				hv = d.Args[1]
+			case strings.HasSuffix(d.Name, "schnorr.(*Signature).Verify") && len(d.Args) >= 1:
+				hv = d.Args[0]
+			}
+			if hv == nil {
+				continue
+			}
+			var msg *Ex
+			o.Of(hv).Walk(func(x *Ex) bool {
+				if msg == nil && isCall(x, "crypto/sha256.Sum256") {
+					msg = arg(x, 0)
+				}
+				return msg == nil
+			})
+			if msg != nil {
+				return msg.String(), c.P.InstrPos(ci)
+			}
+		}
 		return "", c.P.Pos(f.Pos())
+	}
+	strip := func(s string) string {
+		// []byte(string) conversions do not change the message
+		for strings.HasPrefix(s, "convert(") && strings.HasSuffix(s, ")") {
+			s = s[len("convert(") : len(s)-1]
+		}
+		return s
 	}
 	s1, p1 := shape("cashu/nuts/nut20.SignMintQuote")
 	s2, _ := shape("cashu/nuts/nut20.VerifyMintQuoteSignature")
 	want := "acc(+; P:quoteId; elem(P:blindedMessages).B_)"
+	s1, s2 = strip(s1), strip(s2)
 	R.Check("R3", "cashu/nuts/nut20", "sign/verify message shape", p1, s1 != "" && s1 == s2 && s1 == want,
 		"SignMintQuote and VerifyMintQuoteSignature both hash quoteId || B_0 || ... || B_n over the whole list", "sign hashes "+s1+" ; verify hashes "+s2)
 }
